@@ -300,7 +300,11 @@ def run(ctx):
     ctx.proof_step(PROPS_FILE)
     mf = multi_file_cases()
     cases = allof_cases(ctx) + anyof_cases(ctx) + nested_cases() + extra_forms()
-    run_cases(ctx, cases + mf, "c11")
+    from vlib.lookalike import lookalike_composites
+    from vlib.valuecheck import expect_cases
+    la = lookalike_composites("c11")
+    run_cases(ctx, cases + mf + la, "c11")
+    expect_cases(ctx, la, "allOf/anyOf")
     nmf = 0
     for c in mf:
         if not c.build_ok:
